@@ -20,6 +20,7 @@ import (
 	"encoding/json"
 	"fmt"
 	"math/rand"
+	"os"
 	"sort"
 	"strconv"
 	"strings"
@@ -114,7 +115,7 @@ type c18Case struct {
 
 func genC18(t *rapid.T) c18Case {
 	var c c18Case
-	n := rapid.IntRange(4, 36).Draw(t, "n")
+	n := rapid.IntRange(2, 30).Draw(t, "n")
 	inTx := false
 	// rough guesses, only used to bias attach/assign/delete towards things that exist
 	var roleLive [c18Roles]bool
@@ -153,6 +154,40 @@ func genC18(t *rapid.T) c18Case {
 			o.T = rapid.IntRange(0, len(c18Types)-1).Draw(t, label+"_tw")
 		}
 		return o
+	}
+	// three cases out of four start from a small working configuration (built directly or
+	// inside a first transaction) so that the history that follows changes outcomes
+	if rapid.IntRange(0, 3).Draw(t, "preamble") != 0 {
+		preTx := rapid.IntRange(0, 2).Draw(t, "pre_tx") == 0
+		if preTx {
+			c.Ops = append(c.Ops, c18Op{K: "begin"})
+			inTx = true
+		}
+		for j := rapid.IntRange(1, 2).Draw(t, "pre_roles"); j > 0; j-- {
+			r := rapid.IntRange(0, c18Roles-1).Draw(t, "pre_r")
+			roleLive[r] = true
+			c.Ops = append(c.Ops, c18Op{K: "mkrole", R: r})
+		}
+		for j := rapid.IntRange(1, 3).Draw(t, "pre_pols"); j > 0; j-- {
+			p := rapid.IntRange(0, c18Policies-1).Draw(t, "pre_p")
+			op := c18Op{K: "mkpol", Ps: []int{p}, Acts: []int{rapid.IntRange(0, 3).Draw(t, "pre_a")}}
+			if rapid.IntRange(0, 2).Draw(t, "pre_a2") == 0 {
+				op.Acts = append(op.Acts, rapid.IntRange(0, 3).Draw(t, "pre_a3"))
+			}
+			for q := rapid.IntRange(1, 2).Draw(t, "pre_nobj"); q > 0; q-- {
+				op.Objs = append(op.Objs, obj("pre_o"))
+			}
+			polLive[p] = true
+			c.Ops = append(c.Ops, op)
+			c.Ops = append(c.Ops, c18Op{K: "attach", R: pickRole("pre_at_r"), Ps: []int{p}})
+		}
+		for j := rapid.IntRange(1, 3).Draw(t, "pre_assigns"); j > 0; j-- {
+			c.Ops = append(c.Ops, c18Op{K: "assign", R: pickRole("pre_as_r"), S: rapid.IntRange(0, 2).Draw(t, "pre_as_s"), Salt: rapid.IntRange(0, 1<<16).Draw(t, "pre_salt")})
+		}
+		if preTx && rapid.IntRange(0, 1).Draw(t, "pre_commit") == 0 {
+			c.Ops = append(c.Ops, c18Op{K: "commit"})
+			inTx = false
+		}
 	}
 	for i := 0; i < n; i++ {
 		salt := rapid.IntRange(0, 1<<16).Draw(t, "salt")
@@ -337,6 +372,41 @@ func (s *c18State) permitted(subj, act int, objs []c18Obj) bool {
 	return true
 }
 
+// storePolicies is what the store's role/policy graph yields for subj if entries are
+// followed regardless of whether the reference still recognises them. It is only used to
+// decide whether a divergence is the recorded stale-graph finding or something new.
+func (s *c18State) storePolicies(subj int) []int {
+	var out []int
+	for p := 0; p < c18Policies; p++ {
+		if !s.xPolRow[p] {
+			continue
+		}
+		for r := 0; r < c18Roles; r++ {
+			if s.xAssign[c18Edge{r, subj}] && s.xAttach[c18Edge{r, p}] {
+				out = append(out, p)
+				break
+			}
+		}
+	}
+	return out
+}
+
+func (s *c18State) permittedWith(ps []int, act int, objs []c18Obj) bool {
+	for _, o := range objs {
+		covered := false
+		for _, p := range ps {
+			if t, e := c18Covers(s.pols[p], act, o); t || e {
+				covered = true
+				break
+			}
+		}
+		if !covered {
+			return false
+		}
+	}
+	return true
+}
+
 // stale lists, for subject subj, which entries of the store's role/policy graph the
 // reference no longer (or never) recognises; it names the cause in a signature.
 func (s *c18State) stale(subj int) []string {
@@ -355,10 +425,8 @@ func (s *c18State) stale(subj int) []string {
 			if !s.xAttach[c18Edge{r, p}] {
 				continue
 			}
-			switch {
-			case !s.xPolRow[p]:
-				set["deleted-policy-still-attached"] = true
-			case !s.attach[c18Edge{r, p}] && s.xRoleRow[r]:
+			// (a deleted policy's entry is harmless: resolution drops policies without a row)
+			if s.xPolRow[p] && !s.attach[c18Edge{r, p}] && s.xRoleRow[r] {
 				set["recreated-inherits-attachment"] = true
 			}
 		}
@@ -447,6 +515,8 @@ func c18ErrKind(err error) string {
 	}
 }
 
+var c18PastStale = os.Getenv("VERIF_C18_PAST_STALE") != ""
+
 type c18View struct {
 	name    string
 	st      *c18State
@@ -507,7 +577,17 @@ func runC18(t *testing.T, c c18Case, st *drv.Stats) (fail *drv.Failure) {
 	}
 
 	// known reports whether f is a recorded finding the run may continue past
-	known := func(f *drv.Failure) bool { return strings.HasPrefix(f.Sig, "stale-graph:") && st.IsKnown(f) }
+	known := func(f *drv.Failure) bool {
+		if !strings.HasPrefix(f.Sig, "stale-graph:") {
+			return false
+		}
+		if c18PastStale {
+			// development aid: explore beyond the stale-graph finding before it is recorded
+			st.Probe("past:" + f.Class + ":" + f.Sig)
+			return true
+		}
+		return st.IsKnown(f)
+	}
 
 	checkReq := func(what string, v c18View, subj, act int, objs []c18Obj) *drv.Failure {
 		req := access.Request{Subject: c18SubjIDs[subj], Action: c18Actions[act]}
@@ -612,7 +692,9 @@ func runC18(t *testing.T, c c18Case, st *drv.Stats) (fail *drv.Failure) {
 			view = "outside-open-tx"
 		}
 		sig := dir + ":" + view
-		if causes := v.st.stale(subj); len(causes) > 0 {
+		// attributed to the stale-graph finding only if the outcome is exactly what
+		// following the stale entries predicts
+		if causes := v.st.stale(subj); len(causes) > 0 && v.st.permittedWith(v.st.storePolicies(subj), act, objs) == got && (got || errors.Is(err, access.ErrDenied)) {
 			sig = "stale-graph:" + strings.Join(causes, "+") + ":" + sig
 		}
 		f := drv.Failf("access-mismatch", sig, "%s: view %s: Enforce(subject=%s action=%s objects=%v) = %v, reference says permitted=%v (subject's policies in the reference: %s)",
@@ -664,6 +746,9 @@ func runC18(t *testing.T, c c18Case, st *drv.Stats) (fail *drv.Failure) {
 			gotIdx = append(gotIdx, i)
 		}
 		sort.Ints(gotIdx)
+		if fmt.Sprint(gotIdx) != fmt.Sprint(v.st.storePolicies(subj)) {
+			prefix = "" // not what following the stale entries predicts: something new
+		}
 		if fmt.Sprint(gotIdx) != fmt.Sprint(want) {
 			kind := "extra"
 			if len(gotIdx) < len(want) {
@@ -715,9 +800,6 @@ func runC18(t *testing.T, c c18Case, st *drv.Stats) (fail *drv.Failure) {
 	battery := func(what string, salt int) *drv.Failure {
 		for _, v := range views() {
 			for subj := 0; subj < c18Subjects; subj++ {
-				if f := checkPolicies(what, v, subj); f != nil {
-					return f
-				}
 				ps := v.st.policies(subj)
 				acts := []int{(salt + subj) % len(c18Actions)}
 				if len(ps) > 0 || len(v.st.stale(subj)) > 0 {
@@ -760,6 +842,25 @@ func runC18(t *testing.T, c c18Case, st *drv.Stats) (fail *drv.Failure) {
 					if len(far) > 0 {
 						picks = append(picks, far[(salt/3)%len(far)])
 					}
+					// every uncovered object that some existing policy would grant for this
+					// action if it were (wrongly) reachable from the subject: policies of
+					// other roles, of unassigned or deleted roles, unattached policies
+					for _, u := range unc {
+						elsewhere := false
+						for p := 0; p < c18Policies; p++ {
+							if pol, ok := v.st.pols[p]; ok {
+								if ty, ex := c18Covers(pol, act, u); ty || ex {
+									elsewhere = true
+								}
+							}
+						}
+						if elsewhere {
+							st.Probe("deny_object_granted_only_by_unreachable_policy")
+							if f := checkReq(what, v, subj, act, []c18Obj{u}); f != nil {
+								return f
+							}
+						}
+					}
 					for pi, u := range picks {
 						pos := 0
 						if len(cov) > 0 {
@@ -777,6 +878,9 @@ func runC18(t *testing.T, c c18Case, st *drv.Stats) (fail *drv.Failure) {
 					}
 				}
 				if f := checkReq(what, v, subj, salt%len(c18Actions), nil); f != nil {
+					return f
+				}
+				if f := checkPolicies(what, v, subj); f != nil {
 					return f
 				}
 			}
@@ -1022,6 +1126,11 @@ func runC18(t *testing.T, c c18Case, st *drv.Stats) (fail *drv.Failure) {
 					break
 				}
 			}
+		}
+		if os.Getenv("VERIF_C18_DEBUG") != "" {
+			keys, kerr := w.svc.Policy.ResolveSubjects(ctx, tx, c18SubjIDs[0])
+			pp, perr := w.svc.RetrievePoliciesForSubject(ctx, c18SubjIDs[0], tx)
+			fmt.Fprintf(os.Stderr, "DEBUG %s: resolve=%v err=%v policies=%d err=%v\n", what, keys, kerr, len(pp), perr)
 		}
 		if f := battery(what, op.Salt); f != nil {
 			return f
